@@ -1,8 +1,11 @@
 import Driver.Util
 import Driver.Stoich
+import Driver.NetJson
 import SynKitModel.BipGraph
+import SynKitModel.BipGraphViews
 /-!
-Driver command for the graph entry path (C17; `SynKitModel/BipGraph.lean`).
+Driver commands for the graph entry path (C17; `SynKitModel/BipGraph.lean`; C19 / C20:
+`SynKitModel/BipGraphViews.lean`).
 
 * `bip.stoich` — a bipartite NetworkX graph, serialised node by node (`G.nodes(data=True)` order)
   and edge by edge (the `add_edge` calls, or the stored edges `G.edges(data=True)`), →
@@ -12,12 +15,27 @@ Driver command for the graph entry path (C17; `SynKitModel/BipGraph.lean`).
   `wf`: both) and whether its conclusion holds on this input (`netAgrees`); `stored` / `bipartite`:
   the edges NetworkX holds / the arcs `_as_bipartite` returns (diagnostics).
 
+* `bip.complexes` — the same serialised graph (optionally `rank`: the exact stoichiometric rank) →
+  what `_complex_vectors` reads off it according to the model: `complexes` / `arcs`
+  (`graphComplexVectors`, i.e. on `_as_bipartite(G)`), `raw_complexes` / `raw_arcs` (the helper on the
+  graph as given), `reaction_complexes` (`[node id, y, y']` per reaction node), `classes`,
+  `weakly_reversible`, `summary` (when `rank` is given), or `error`; the described network `net`
+  (`netOfGraph`) and `view` (`viewNet (netOfGraph g)` in the `Driver/NetJson.lean` format, ready for
+  `def.analyse` / `petri.structure`); `wfCore` (`WF`) and `agrees`: the conclusion of
+  `graphComplexes_eq` / `graphComplexesRaw_eq` / `graphSummary_eq` evaluated on this input.
+* `bip.structure` — the serialised graph, `sets` (lists of species indices) and `max_size` →
+  `siphon` / `trap`: `graphSiphonPred` / `graphTrapPred` on every set, `net_siphon` / `net_trap`:
+  `Petri.isSiphon` / `isTrap` of `view` on the same sets, `siphons` / `traps` (+ `_idx`): the families
+  `graphFindSiphons` / `graphFindTraps` (sorted), `net`, `view`, `wfCore`, `agrees`: the conclusion of
+  `graphSiphonPred_eq` / `graphTrapPred_eq` / `graphFindSiphons_eq` on this input.
+
 Input: `{"directed": b, "multi": b, "nodes": [{"id": s, "kind": s|null, "flag": i|null,
 "label": s|null}], "arcs": [{"src": s, "dst": s, "role": s|null, "stoich": i|null}]}`; an absent
 key and `null` both mean "attribute absent". Coefficients are integers; floats never cross.
 -/
 open Lean SynKit SynKit.Store SynKit.Stoich SynKit.BipGraph
 namespace Driver.BipGraph
+open Driver.NetJson (natListJson natListsJson intListJson strListsJson sortStrLists sortNatLists)
 
 def getOptInt (j : Json) (k : String) : Except String (Option Int) :=
   match j.getObjVal? k with
@@ -42,13 +60,24 @@ def sideJson (s : Side) : Json :=
 def edgeJson (e : Edge) : Json :=
   Json.mkObj [("id", e.id), ("rule", e.rule), ("r", sideJson e.reactants), ("p", sideJson e.products)]
 
-def netJson (N : Net) : Json :=
+def netJson (N : Stoich.Net) : Json :=
   Json.mkObj [("species", Driver.strList N.species), ("edges", Json.arr (N.edges.map edgeJson).toArray)]
 
 def arcJson (a : BArc) : Json :=
   Json.mkObj [("src", a.src), ("dst", a.dst),
     ("role", match a.role with | some r => Json.str r | none => Json.null),
     ("stoich", match a.stoich with | some c => toJson c | none => Json.null)]
+
+def rxnJson (r : Rxn) : Json :=
+  Json.mkObj [("id", r.id), ("rule", r.rule), ("r", sideJson r.reactants), ("p", sideJson r.products)]
+
+/-- The ordered network in the format `Driver/NetJson.lean` reads. -/
+def viewJson (N : SynKit.Net) : Json :=
+  Json.mkObj [("species", Driver.strList N.species), ("reactions", Json.arr (N.reactions.map rxnJson).toArray)]
+
+def intRowsJson (rows : List (List Int)) : Json := Json.arr (rows.map intListJson).toArray
+
+def pairsJson (ps : List (Nat × Nat)) : Json := Json.arr (ps.map fun a => natListJson [a.1, a.2]).toArray
 
 def resEq : Except Stoich.Err SResult → Except Stoich.Err SResult → Bool
   | .ok a, .ok b => decide (a = b)
@@ -84,6 +113,65 @@ def handle : Driver.Handler := fun cmd j =>
         ("S_minus", Driver.Stoich.imatJson (graphSMinus g)),
         ("S_plus", Driver.Stoich.imatJson (graphSPlus g)),
         ("S", Driver.Stoich.imatJson res.S)] ++ common))
+  | "bip.complexes" => some do
+    let g ← parseGraph j
+    let V := analysisNet g
+    let cv := graphComplexVectors g
+    let raw := graphComplexVectorsRaw g
+    let want := liftVectors (Deficiency.complexVectors V)
+    let rank := (Driver.getNat j "rank").toOption
+    let sumAgrees : Bool := match rank with
+      | none => true
+      | some k => decide (graphSummary g k = Deficiency.computeSummary V k)
+    let common : List (String × Json) := [
+      ("net", netJson (netOfGraph g)), ("view", viewJson V), ("wfCore", Json.bool (wfCoreB g)),
+      ("agrees", Json.bool (decide (cv = want) && decide (raw = want) &&
+        decide (graphLinkageClasses g = Deficiency.linkageClasses V) &&
+        (graphWeaklyReversible g == Deficiency.weaklyReversible V) && sumAgrees))]
+    if (speciesNodes g).isEmpty || (reactionNodes g).isEmpty then
+      pure (Json.mkObj (("error", "ValueError") :: common))
+    else
+      let summ : List (String × Json) := match rank with
+        | none => []
+        | some k => match graphSummary g k with
+          | .error .valueError => [("summary", Json.mkObj [("error", "ValueError")])]
+          | .ok s => [("summary", Json.mkObj [("n_species", s.nSpecies), ("n_reactions", s.nReactions),
+              ("n_complexes", s.nComplexes), ("n_linkage_classes", s.nLinkage), ("stoich_rank", s.rank),
+              ("deficiency", toJson s.deficiency), ("weakly_reversible", Json.bool s.weaklyReversible)])]
+      pure (Json.mkObj ([
+        ("rows", Driver.strList (rowLabels g)), ("rowIds", Driver.strList ((speciesRows g).map (·.id))),
+        ("reactionIds", Driver.strList ((reactionNodes g).map (·.id))),
+        ("complexes", intRowsJson cv.1), ("arcs", pairsJson cv.2),
+        ("raw_complexes", intRowsJson raw.1), ("raw_arcs", pairsJson raw.2),
+        ("reaction_complexes", Json.arr ((graphReactionComplexes g).map fun t =>
+          Json.arr #[Json.str t.1, intListJson t.2.1, intListJson t.2.2]).toArray),
+        ("classes", natListsJson (graphLinkageClasses g)),
+        ("weakly_reversible", Json.bool (graphWeaklyReversible g))] ++ summ ++ common))
+  | "bip.structure" => some do
+    let g ← parseGraph j
+    let V := analysisNet g
+    let ms ← Driver.NetJson.getOptNat j "max_size"
+    let sets : List (List Nat) ← match j.getObjVal? "sets" with
+      | .ok (.arr xs) => xs.toList.mapM fun x => (fromJson? x : Except String (List Nat))
+      | _ => pure []
+    let gs := sets.map (graphSiphonPred g)
+    let gt := sets.map (graphTrapPred g)
+    let ns := sets.map (Petri.isSiphon V)
+    let nt := sets.map (Petri.isTrap V)
+    let fs := graphFindSiphonsIdx g ms
+    let ft := graphFindTrapsIdx g ms
+    let bools (l : List Bool) : Json := Json.arr (l.map Json.bool).toArray
+    pure (Json.mkObj [
+      ("net", netJson (netOfGraph g)), ("view", viewJson V), ("wfCore", Json.bool (wfCoreB g)),
+      ("rows", Driver.strList (rowLabels g)),
+      ("siphon", bools gs), ("trap", bools gt), ("net_siphon", bools ns), ("net_trap", bools nt),
+      ("siphons", strListsJson (sortStrLists (graphFindSiphons g ms))),
+      ("traps", strListsJson (sortStrLists (graphFindTraps g ms))),
+      ("siphons_idx", natListsJson (sortNatLists fs)), ("traps_idx", natListsJson (sortNatLists ft)),
+      ("agrees", Json.bool (decide (gs = ns) && decide (gt = nt) &&
+        decide (fs = Petri.findSiphonsIdx V ms) && decide (ft = Petri.findTrapsIdx V ms) &&
+        decide (graphFindSiphons g ms = Petri.findSiphons V ms) &&
+        decide (graphFindTraps g ms = Petri.findTraps V ms)))])
   | _ => none
 
 end Driver.BipGraph
